@@ -43,6 +43,7 @@ type hist struct {
 	stop    bool
 	cause   string // a recorded cause that is known to make the serialised file wrong
 	changed bool
+	scratch hclwrite.Tokens // one token buffer reused for every raw-token argument: the caller owns it and overwrites it
 }
 
 func (h *hist) fail(key, desc, impl string) {
@@ -583,7 +584,21 @@ func (h *hist) step(op Op) {
 			}
 			exprTB = tbs(toks)
 			na.kind, na.dump = "raw", lib.DumpExpr(e, false)
-			do = func() *hclwrite.Attribute { return body.h.SetAttributeRaw(op.Name, toks) }
+			do = func() *hclwrite.Attribute {
+				// the argument lives in the history's scratch buffer, which the next raw operation overwrites
+				// in place (fresh Token values, same backing array): what was set earlier must not follow it
+				if cap(h.scratch) < 256 {
+					h.scratch = make(hclwrite.Tokens, 0, 256)
+				}
+				if len(toks) > cap(h.scratch) {
+					return body.h.SetAttributeRaw(op.Name, toks)
+				}
+				for i := range h.scratch[:cap(h.scratch)] {
+					h.scratch[:cap(h.scratch)][i] = &hclwrite.Token{Type: hclsyntax.TokenIdent, Bytes: []byte("overwritten_scratch")}
+				}
+				h.scratch = append(h.scratch[:0], toks...)
+				return body.h.SetAttributeRaw(op.Name, h.scratch)
+			}
 		}
 		_, exists := body.attrs[op.Name]
 		res.Count("op:" + op.Op + map[bool]string{true: "-existing", false: "-new"}[exists])
